@@ -543,15 +543,18 @@ class Stage:
                     raise Exception("You attempted to set the value of a non-parameter. Did you mean ocp.set_initial()? Got " + str(parameter))
                 self._param_vals[parameter] = value
         for_all_primitives(parameter, value, action, "First argument to set_value must be a parameter or a simple concatenation of parameters", rhs_type=DM)
-        if self.master is not None and self.master.is_transcribed and hasattr(self._method, 'set_initial_all'):
+        if self.master is not None and self.master.is_transcribed:
             # Guesses that are expressions (of time on a parametric horizon, of parameters) follow the new value,
-            # and so do the guesses of the localized time grid when the horizon is this parameter
-            time_grid = getattr(self._method, 'time_grid', None)
-            localized = time_grid is not None and (time_grid.localize_t0 or time_grid.localize_T)
-            horizon = [h for h in (self._t0, self._T) if isinstance(h, MX)]
-            if any(isinstance(v, MX) and not v.is_constant() for v in self._initial.values()) or \
-               (localized and horizon and depends_on(veccat(*horizon), veccat(*ca.symvar(MX(parameter))))):
-                self._method.set_initial_all(self._augmented, self.master._method, self._initial)
+            # and so do the guesses of the localized time grid when the horizon is this parameter.
+            # The parameter may be used by any stage of the problem (e.g. a parent's parameter in a guess of a sub-stage)
+            for s in self.master.iter_stages(include_self=True):
+                if not hasattr(s._method, 'set_initial_all'): continue
+                time_grid = getattr(s._method, 'time_grid', None)
+                localized = time_grid is not None and (time_grid.localize_t0 or time_grid.localize_T)
+                horizon = [h for h in (s._t0, s._T) if isinstance(h, MX)]
+                if any(isinstance(v, MX) and not v.is_constant() for v in s._initial.values()) or \
+                   (localized and horizon and depends_on(veccat(*horizon), veccat(*ca.symvar(MX(parameter))))):
+                    s._method.set_initial_all(s._augmented, self.master._method, s._initial)
 
 
     def set_initial(self, var, value, priority=False):
